@@ -1226,7 +1226,7 @@ func (in *Interp) sprintfExact(format value, args sliceV) (value, bool) {
 			lit("%")
 			continue
 		}
-		if f[i] != 's' && f[i] != 'v' && f[i] != 'd' {
+		if f[i] != 's' && f[i] != 'v' && f[i] != 'd' && f[i] != 'x' {
 			return nil, false
 		}
 		if ai >= len(args) {
@@ -1239,7 +1239,7 @@ func (in *Interp) sprintfExact(format value, args sliceV) (value, bool) {
 		}
 		switch v := a.v.(type) {
 		case string, *symStr:
-			if f[i] == 'd' {
+			if f[i] == 'd' || f[i] == 'x' {
 				return nil, false
 			}
 			if _, isStr := a.t.Underlying().(*types.Basic); !isStr || in.hasMethod(a.t, "String") || in.hasMethod(a.t, "Error") {
@@ -1254,7 +1254,11 @@ func (in *Interp) sprintfExact(format value, args sliceV) (value, bool) {
 			if in.hasMethod(a.t, "String") || in.hasMethod(a.t, "Error") {
 				return nil, false
 			}
-			lit(in.termInt(v, a.t).String())
+			if f[i] == 'x' {
+				lit(in.termInt(v, a.t).Text(16))
+			} else {
+				lit(in.termInt(v, a.t).String())
+			}
 		default:
 			return nil, false
 		}
